@@ -37,15 +37,18 @@ def changeCaxes (g : GCXS Int) (newc : List Nat) : GCXS Int :=
 /-- the default `compressed_axes` of `reshape` when the rank changes: `(np.argmin(shape),)` -/
 def defaultCaxes (shape : List Nat) : List Nat := [shape.idxOf (shape.foldl min (shape.getD 0 0))]
 
+/-- a 1-d or n-d GCXS array as the COO array of its stored elements (storage order, coordinates as `_1d_reshape` /
+`_transpose` recompute them) -/
+def srcCoo (g : GCXS Int) : COO Int :=
+  match g.caxes with
+  | none => { shape := g.shape, fill := g.fill, entries := (g.indices.zip g.data).map fun p => ([p.1], p.2) }
+  | some c => g.rawCoo c
+
 /-- `reshape(shape)` of a 1-d or n-d array to a different shape of rank ≥ 2 (sizes equal): every stored coordinate is
-linearised in the old shape and unravelled in the new one; then compressed along the default axis -/
+linearised in the old shape and unravelled in the new one (`COO.reshapeCore` is that map); then compressed along the
+default axis by `_from_coo`'s kernel -/
 def reshapeG (g : GCXS Int) (shape : List Nat) : GCXS Int :=
-  if g.shape = shape then g else
-  let src : COO Int := match g.caxes with
-    | none => { shape := g.shape, fill := g.fill, entries := (g.indices.zip g.data).map fun p => ([p.1], p.2) }
-    | some c => g.rawCoo c
-  fromCooCore { shape := shape, fill := g.fill,
-                entries := src.entries.map fun e => (unravel (ravel e.1 g.shape) shape, e.2) } (defaultCaxes shape)
+  if g.shape = shape then g else fromCooCore (g.srcCoo.reshapeCore shape) (defaultCaxes shape)
 
 end GCXS
 
@@ -73,29 +76,32 @@ inductive GRedResult where
 namespace GCXS
 open GIx
 
+/-- the 1-d array `_reduce_return` builds from the reduced rows of `x` (an `R × nCols` CSR view, `fill` the operand's
+fill value): fill correction of `SparseArray.reduce` with the count of missing elements per row, new fill value,
+`mask = ~equivalent(data, result_fill_value)`, `GCXS((data[mask], indices[mask], []), shape=(R,))` -/
+def reduceOut1 (op : RedOp) (fill : Int) (x : GCXS Int) (R nCols : Nat) : GCXS Int :=
+  let runs := reduceRows op.ap x.indptr x.data R
+  let df : List (Nat × Int) × Int :=
+    match op.super? with
+    | none => (runs.map fun (r, v, n) => (r, if n ≠ nCols then op.ap v fill else v), fill)
+    | some sup => (runs.map fun (r, v, n) => (r, op.ap v (sup fill (nCols - n))), sup fill nCols)
+  let keptData := df.1.filter fun p => p.2 ≠ df.2
+  { shape := [R], caxes := none, indptr := [], indices := keptData.map (·.1), data := keptData.map (·.2), fill := df.2 }
+
 /-- `reduce(method, axis, keepdims)` on an n-d GCXS array for a non-empty proper subset `axes` of the axes (already
 normalised, distinct): the route through `GCXS._reduce_calc` / `_reduce_return` -/
-def reduceMain (op : RedOp) (g : GCXS Int) (axes : List Nat) (keepdims : Bool) : Except Err GRedResult := do
-  if op.ap g.fill g.fill ≠ g.fill ∧ op.super?.isNone then throw .value
+def reduceMain (op : RedOp) (g : GCXS Int) (axes : List Nat) (keepdims : Bool) : Except Err GRedResult :=
+  if op.ap g.fill g.fill ≠ g.fill ∧ op.super?.isNone then .error .value else
   let nd := g.shape.length
-  if op.super?.isNone ∧ axes.any (fun a => g.shape.getD a 0 == 0) then throw .value
+  if op.super?.isNone ∧ axes.any (fun a => g.shape.getD a 0 == 0) then .error .value else
   let kept := (List.range nd).filter fun a => !axes.contains a
   let x := g.changeCaxes kept
-  let R := csrR g.shape kept
-  let nCols := csrC g.shape kept
-  let runs := reduceRows op.ap x.indptr x.data R
-  let (data, fill') : List (Nat × Int) × Int :=
-    match op.super? with
-    | none => (runs.map fun (r, v, n) => (r, if n ≠ nCols then op.ap v g.fill else v), g.fill)
-    | some sup => (runs.map fun (r, v, n) => (r, op.ap v (sup g.fill (nCols - n))), sup g.fill nCols)
-  let keptData := data.filter fun p => p.2 ≠ fill'
-  let out1 : GCXS Int := { shape := [R], caxes := none, indptr := [], indices := keptData.map (·.1),
-                           data := keptData.map (·.2), fill := fill' }
+  let out1 := reduceOut1 op g.fill x (csrR g.shape kept) (csrC g.shape kept)
   let out := out1.reshapeG (kept.map fun d => g.shape.getD d 0)
   let out := if keepdims then
       out.reshapeG ((List.range nd).map fun d => if axes.contains d then 1 else g.shape.getD d 0)
     else out
-  pure (.arr out)
+  .ok (.arr out)
 
 end GCXS
 end SparseV
